@@ -39,7 +39,7 @@ def c09_cases(rng, tier):
             for upper in (False, True):
                 if upper and rep % 2:
                     continue
-                total = max(nq, rng.randint(3, 5))
+                total = max(nq, rng.randint(3, 6 if name == "qft" else 5))
                 # split the qubits over 1-3 registers
                 sizes = []
                 left = total
@@ -55,9 +55,24 @@ def c09_cases(rng, tier):
                     if st:
                         prep.append(st)
                 args = rng.sample(lay.qubits(), nq)
+                if (name in pyref.BROADCAST1 or name == "qft") and rng.random() < 0.4:
+                    args = [("r", rng.choice(regs))]      # whole-register form: the gate on each qubit of the register
                 stmt = ("apply", name.upper() if upper else name, args, [angle_expr(rng, tier) for _ in range(npar)])
                 nodes = decl + prep + [stmt]
                 cs.append({"chunks": [nodes], "seed": 1, "kind": name, "stmt": stmt, "prep": decl + prep})
+    # whole-register form of every one-qubit gate without parameter (and of qft) on registers of 2..4 qubits
+    for name in sorted(pyref.BROADCAST1) + ["qft"]:
+        for size in ((2, 3, 4) if tier == "quick" else (2, 3, 4, 5)):
+            for upper in (False, True):
+                decl = [("qreg", "a", 1), ("qreg", "q", size), ("creg", "c", 1)]
+                lay = qa.Layout(); lay.q = [("a", 1), ("q", size)]
+                prep = [("apply", "h", [("r", "q")], [])]
+                for _ in range(rng.randint(2, 5)):
+                    st = qa.gen_gate_stmt(rng, lay, depth=1, allow_user=False, allow_ctrl=False)
+                    if st:
+                        prep.append(st)
+                stmt = ("apply", name.upper() if upper else name, [("r", "q")], [])
+                cs.append({"chunks": [decl + prep + [stmt]], "seed": 1, "kind": name + "/reg", "stmt": stmt, "prep": decl + prep})
     return cs
 
 
@@ -301,9 +316,14 @@ def c17_cases(rng, tier):
     w2 = [("qreg", "q", 2), ("creg", "c", 2), ("apply", "h", [("q", "q", 0)], []),
           ("if", "c", 1, ("apply", "x", [("q", "q", 1)], []))]
     cs.append({"chunks": [w2[:3], w2[3:]], "api": "add", "seed": 3, "whole": w2})
+    # a later chunk declares a second classical register and uses it at once (masks of the chunk's own statements)
+    w3 = [("qreg", "q", 2), ("creg", "c", 1), ("creg", "d", 1), ("apply", "x", [("q", "q", 0)], []),
+          ("measure", ("q", "q", 0), ("q", "d", 0)), ("if", "d", 1, ("apply", "x", [("q", "q", 1)], []))]
+    for api in ("changes", "prepend", "add"):
+        cs.append({"chunks": [w3[:2], w3[2:]], "api": api, "seed": 5, "whole": w3})
     for _ in range(60 if tier == "quick" else 800):
         nodes, lay = qa.gen_program(rng, nstmts=rng.randint(4, 25), max_q=5, measure_p=0.15, if_p=0.15, reset_p=0.08,
-                                    gate_defs=2, depth=2)
+                                    gate_defs=2, depth=2, late_p=0.15)
         seed = rng.randrange(1 << 30)
         xor = rng.random() < 0.3
         for _ in range(3):
